@@ -65,8 +65,8 @@ CLAIMED.update({
 })
 CLAIMED.update({
     "C14": dict(
-        text="(a) pkt_lifespan + Message._expired run on one logged frame per I/RP verb/code (and on sync-cycle frames with all 65536 count-downs symbolic) with the gateway clock two solver reals e1 <= e2 on the same object: never raises, not expired before the lifetime, expired from 2x lifetime + 3 s, expiry never un-happens. (b) the real _MessageDB store/read functions on a minimal entity: two messages for the same attribute and context with symbolic values and unrelated traffic in between - the read equals the later message's value (dict and array forms), and past twice the lifetime reads unknown.",
-        note="Trusted: z3 (linear real arithmetic over the clock), symx, the SymInstant/SymTimeDelta stand-ins for datetime arithmetic. The lifetime table itself is taken from the code (the property fixes only the 1x/2x+3 s thresholds). Routing of packets to zone/DHW entities is outside. The stale first read after expiry is a recorded known finding; the zero-countdown division and the -1.0 sentinel collision were repaired.",
+        text="(a) pkt_lifespan + Message._expired run on one logged frame per I/RP verb/code (and on sync-cycle frames with all 65536 count-downs symbolic) with the gateway clock two solver reals e1 <= e2 on the same object: never raises, not expired before the lifetime, expired from 2x lifetime + 3 s, expiry never un-happens. (b) the real _MessageDB store/read functions on a minimal entity: two messages for the same attribute and context with symbolic values and unrelated traffic in between - the read equals the later message's value (dict and array forms), and past twice the lifetime reads unknown. (c) entity level: a real Gateway with a controller and zones 00-02 receives K = 2..3 state messages through the real dispatcher and MultiZone/Zone handlers; per message the form (30C9/2309 array, per-zone RP/I, 2349), the zone, the 16-bit value and the time of receipt are solver variables, as is the read time; every zone's temperature and setpoint then equal the value of the newest live message covering that zone, and a value is reported only while a message carrying it is younger than 2x lifetime + 3 s.",
+        note="Trusted: z3 (linear real arithmetic over the clock), symx, the SymInstant/SymTimeDelta stand-ins for datetime arithmetic. The lifetime table itself is taken from the code (the property fixes only the 1x/2x+3 s thresholds). Entity-level routing is covered for zones (30C9/2309/2349); DHW/UFH and the other stateful codes are covered at the state-DB level only. The stale first read after expiry is a recorded known finding; the zero-countdown division and the -1.0 sentinel collision were repaired.",
         design="4/C14"),
 })
 CLAIMED.update({
@@ -83,9 +83,9 @@ CLAIMED.update({
 })
 CLAIMED.update({
     "C13": dict(
-        text="Claimed for the snapshot/restore clause: the real Gateway.get_state and _restore_cached_packets with the real Gateway/Engine _pause/_resume run on a bare Gateway object; which messages are stored, their ages (solver reals), include_expired, the sending/discovery flags and a fault point (any stored message's expiry test raising, the temporary protocol/transport factory or the replay task failing) are solver variables; per path, returned or raised, the engine is not left paused, handler and flags are as before, every pause is matched by a resume and the operation can be repeated.",
-        note="Not claimed: 'every view of every entity after any packet history' and 'foreign packets never stop tracking' - histories are not a solver domain and the entity classes are outside the symbolically executable subset; the expiry kernel those views share is decided under C14. Trusted: z3, symx, the bare-object stubs. The missing try/finally (engine left paused) was found by this check and repaired.",
-        design="4/C13"),
+        text="(a) snapshot/restore clause: the real Gateway.get_state and _restore_cached_packets with the real Gateway/Engine _pause/_resume run on a bare Gateway object; which messages are stored, their ages (solver reals), include_expired, the sending/discovery flags and a fault point (any stored message's expiry test raising, the temporary protocol/transport factory or the replay task failing) are solver variables; per path, returned or raised, the engine is not left paused, handler and flags are as before, every pause is matched by a resume and the operation can be repeated. (b) views clause: a real Gateway is fed a prefix of one of the repository's system logs through the real message handler, dispatcher and entity handlers, then one more packet of that history whose payload carries a solver-chosen 2-byte window (appended, or replacing the original line); per path every public view (gateway schema/params/status/known_list/get_state, and schema/params/status/traits of every device, system, zone, DHW) answers without raising, the engine is not paused and a later good packet still reaches its device.",
+        note="Not claimed: views after arbitrary many-packet histories (deletion/reordering/splicing are not a solver domain) - the claim is for the stated log prefixes (4 logs quick / 7 thorough) plus one symbolic packet; windows over embedded device ids, names and zone masks are thorough-tier only. Trusted: z3, symx, the bare-object stubs, the clock-only stub transport. Found by this check and repaired: the missing try/finally (engine left paused) and BdrSwitch.role raising NameError for a relay listed as a zone actuator.",
+        design="4/C13, 7.5"),
     "C16": dict(
         text="Claimed at the storage-format and filter level: (a) for an arbitrary accepted packet (all frame fields symbolic) the stored text repr(pkt)[:26] -> repr(pkt)[27:] is read back by the real Packet.from_dict as a packet whose stored text is identical (snapshot -> restore -> snapshot is a fixpoint of the packet set, headers and contexts included); (b) the real get_state over stored messages of any of 12 verb/code kinds with symbolic ages and include_expired: whatever is in the snapshot is allowed by the statement (no request, no write but schedule fragments, nothing expired unless asked), live I/RP state is saved, and every stored line decodes again.",
         note="Not claimed: equality of the schemas of source and restored gateway, idempotence of restoring into a populated gateway (entity layer). The always-kept expired 313F is a recorded known finding. Time stamps are concrete (dt.fromisoformat is C code).",
